@@ -7,7 +7,7 @@ EXTENDS LiquidGen, LiquidAst
 CONSTANT Variant   \* "markers" | "blank"
 
 MCData == { << <<<<"x", IntV(1)>>, <<"e", Str("")>>>>, <<>>, <<>>, <<>> >> }
-MCCfgs == {[trim |-> t, suppress |-> s, autoescape |-> FALSE, undef |-> "default"] :
+MCCfgs == {Cfg(t, s, FALSE, "default") :
              t \in {"+", "-", "~"}, s \in BOOLEAN}
 
 Wcs == {<<"", "">>, <<"-", "-">>, <<"-", "">>, <<"", "-">>, <<"~", "~">>, <<"~", "-">>, <<"+", "-">>, <<"-", "+">>, <<"", "~">>}
@@ -65,4 +65,5 @@ MCPoolAt(i) ==
   IF Variant = "markers"
   THEN (IF i % 2 = 1 THEN (IF i = 1 THEN Texts ELSE TextsFew) ELSE (IF i = 2 THEN Simple \cup Blocks ELSE {W(NOut(P(V("x"))), wc) : wc \in WcsFew}))
   ELSE (IF i % 2 = 1 THEN {NText("["), NText("]")} ELSE BlankBlocks \cup {NOut(P(V("cap")))})
+MCPartials == <<>>
 =============================================================================
